@@ -30,5 +30,5 @@ def run(ctx):
         "UDP socket gauge balance is checked with the UDP flow model (C07)",
         "label values are compared case-insensitively (METRICS.md writes http1, the code HTTP1); the property speaks of names and labels",
         "quiescence = values equal the prediction within a 4 s budget after each operation (real loopback sockets)",
-        "HTTP/3 sessions are not driven",
+        "HTTP/3 sessions: the HTTP3 session gauge is validated by the QUIC endpoint trace (EndpointQuic.tla), byte counters are not driven over HTTP/3",
     ])
